@@ -314,6 +314,7 @@ Proof. unfold tf, terms_of. intros E. inversion E. auto. Qed.
 Theorem Cover_claim e w A :
   ClaimInv w A -> CoverInv w -> pay_token (st w) <> lp_token (st w) -> caller e <> sc_addr ->
   get_launch_stage e (st w) = Claim -> claimed (st w) (caller e) = false ->
+  blacklisted (st w) (caller e) = false ->
   range (st w) (caller e) <> None ->
   exists w',
     claim_launchpad_tokens default_send e w = Ok w' /\ ClaimInv w' A /\ CoverInv w' /\
@@ -322,7 +323,7 @@ Theorem Cover_claim e w A :
     bal w' (caller e) (lp_token (st w)) 0 = bal w (caller e) (lp_token (st w)) 0 + tpt (st w) * wins /\
     bal w' sc_addr (lp_token (st w)) 0 + tpt (st w) * wins = bal w sc_addr (lp_token (st w)) 0.
 Proof.
-  intros Hi Hc Htok Hne Hstage Hcl Hr. unfold CoverInv in *.
+  intros Hi Hc Htok Hne Hstage Hcl Hnb Hr. unfold CoverInv in *.
   destruct (ClaimInv_settle e w A Hi Hr) as (w1 & wins & E & Hw & Hi1 & Hb1 & _ & _ & _).
   pose proof (settle_spec e w w1 wins E) as Hs. cbn zeta in Hs.
   destruct Hs as (_ & _ & _ & _ & _ & _ & Hn1 & Hwle & _ & Htf & _).
@@ -334,7 +335,7 @@ Proof.
   { intros x. rewrite Hb1. destruct (0 <? due (st w) (caller e)); [|reflexivity].
     apply bal_after_other; intros Hx; inversion Hx; congruence. }
   unfold claim_launchpad_tokens, require_stage. rewrite Hstage. cbn [stage_eqb require bind].
-  rewrite Hcl. cbn [negb require bind]. rewrite E. cbn [bind].
+  rewrite Hcl, Hnb. cbn [negb require bind]. rewrite E. cbn [bind].
   unfold send_launchpad_tokens. subst wins. set (wins := winning_of (st w) (caller e)) in *.
   destruct (N.eqb_spec wins 0) as [Hz|Hnz].
   - exists w1. split; [reflexivity|]. split; [exact Hi1|]. rewrite Hlp, Htpt, Hn1, !Hlpbal, Hz.
@@ -399,6 +400,7 @@ Theorem Cover_claim_locked e w A :
   ClaimInv w A -> CoverInv w -> pay_token (st w) <> lp_token (st w) -> caller e <> sc_addr ->
   lock_sc (st w) <> sc_addr -> lock_pct (st w) <= MAX_PERCENTAGE -> 0 < tpt (st w) ->
   get_launch_stage e (st w) = Claim -> claimed (st w) (caller e) = false ->
+  blacklisted (st w) (caller e) = false ->
   range (st w) (caller e) <> None ->
   exists w',
     claim_launchpad_tokens send_locked_launchpad_tokens e w = Ok w' /\ ClaimInv w' A /\ CoverInv w' /\
@@ -406,7 +408,7 @@ Theorem Cover_claim_locked e w A :
     nr_winning (st w') = nr_winning (st w) - wins /\
     bal w' sc_addr (lp_token (st w)) 0 + tpt (st w) * wins = bal w sc_addr (lp_token (st w)) 0.
 Proof.
-  intros Hi Hc Htok Hne Hlsc Hpct Htptpos Hstage Hcl Hr. unfold CoverInv in *.
+  intros Hi Hc Htok Hne Hlsc Hpct Htptpos Hstage Hcl Hnb Hr. unfold CoverInv in *.
   destruct (ClaimInv_settle e w A Hi Hr) as (w1 & wins & E & Hw & Hi1 & Hb1 & _ & _ & _).
   pose proof (settle_spec e w w1 wins E) as Hs. cbn zeta in Hs.
   destruct Hs as (_ & _ & _ & _ & _ & _ & Hn1 & Hwle & _ & Htf & _).
@@ -421,7 +423,7 @@ Proof.
   { intros x. rewrite Hb1. destruct (0 <? due (st w) (caller e)); [|reflexivity].
     apply bal_after_other; intros Hx; inversion Hx; congruence. }
   unfold claim_launchpad_tokens, require_stage. rewrite Hstage. cbn [stage_eqb require bind].
-  rewrite Hcl. cbn [negb require bind]. rewrite E. cbn [bind].
+  rewrite Hcl, Hnb. cbn [negb require bind]. rewrite E. cbn [bind].
   unfold send_launchpad_tokens. subst wins. set (wins := winning_of (st w) (caller e)) in *.
   destruct (N.eqb_spec wins 0) as [Hz|Hnz].
   - exists w1. split; [reflexivity|]. split; [exact Hi1|]. rewrite Hlp, Htpt, Hn1, !Hlpbal, Hz.
